@@ -14,9 +14,11 @@ import (
 	"math/rand"
 	"strings"
 	"sync"
+	"sync/atomic"
 	"time"
 
 	"verifharness/lab/ev"
+	"verifharness/lab/racelog"
 
 	"go.miragespace.co/specter/spec/chord"
 	"go.miragespace.co/specter/spec/protocol"
@@ -35,6 +37,24 @@ type scripted struct {
 	script      []result
 	calls       int
 	methods     []string
+}
+
+// concNode: Get(key) fails retryably fails[key] times, then answers "ok-<key>".
+type concNode struct {
+	chord.VNode
+	mu    sync.Mutex
+	fails map[string]int
+	tries map[string]int
+}
+
+func (c *concNode) Get(_ context.Context, k []byte) ([]byte, error) {
+	c.mu.Lock()
+	defer c.mu.Unlock()
+	c.tries[string(k)]++
+	if c.tries[string(k)] <= c.fails[string(k)] {
+		return nil, chord.ErrKVStaleOwnership
+	}
+	return []byte("ok-" + string(k)), nil
 }
 
 var errOverrun = errors.New("c15: called more often than scripted")
@@ -229,7 +249,7 @@ func main() {
 	r.SetExhaustive(true)
 	maxAttempts := r.Pick(3, 5)
 	reps := r.Pick(1, 3)
-	r.SetRule(fmt.Sprintf("every sequence over {O ok, R retryable, N non-retryable} of length attempts+1 for attempts 1..%d x each of the 11 methods wrapped by WrapRetryKV (x%d seeded choices of the concrete errors: sentinels or unique %%w-wrappers, incl. context.DeadlineExceeded as retryable); non-trivial when the first result is not ok; distinct by (method, attempts, sequence)", maxAttempts, reps))
+	r.SetRule(fmt.Sprintf("every sequence over {O ok, R retryable, N non-retryable} of length attempts+1 for attempts 1..%d x each of the 11 methods wrapped by WrapRetryKV (x%d seeded choices of the concrete errors: sentinels or unique %%w-wrappers, incl. context.DeadlineExceeded as retryable); non-trivial when the first result is not ok; distinct by (method, attempts, sequence); plus one wrapper shared by 16 goroutines, half of them calling with cancelled contexts: every call with a healthy context returns the first success after its own 0-3 retryable failures", maxAttempts, reps))
 	rng := r.Rand("c15")
 
 	var cases []caseT
@@ -395,6 +415,73 @@ func main() {
 		}
 	}
 	r.Count("underlying_calls", totalCalls)
+
+	// ---- one wrapper shared by concurrent callers with different contexts (the server shares one
+	// wrapped node between all its RPC handlers): every call with a healthy context still returns the
+	// first success after its own retryable failures, whatever happens to the contexts of the others
+	{
+		cn := &concNode{fails: map[string]int{}, tries: map[string]int{}}
+		w := chord.WrapRetryKV(cn, 20*time.Microsecond, 6)
+		G, per := 16, r.Pick(150, 1500)
+		var cwg sync.WaitGroup
+		var badMu sync.Mutex
+		var firstBad string
+		var nbad, nHealthy, nCancelled atomic.Int64
+		for g := 0; g < G; g++ {
+			cwg.Add(1)
+			go func(g int) {
+				defer cwg.Done()
+				grng := r.Rand(fmt.Sprintf("concurrent-%d", g))
+				for i := 0; i < per; i++ {
+					key := fmt.Sprintf("g%d-%d", g, i)
+					cn.mu.Lock()
+					cn.fails[key] = grng.Intn(4)
+					cn.mu.Unlock()
+					ctx := context.Background()
+					healthy := g%2 == 0
+					if !healthy {
+						c2, cancel := context.WithCancel(ctx)
+						cancel()
+						ctx = c2
+					}
+					v, err := w.Get(ctx, []byte(key))
+					if !healthy {
+						nCancelled.Add(1)
+						continue
+					}
+					nHealthy.Add(1)
+					if err != nil || string(v) != "ok-"+key {
+						nbad.Add(1)
+						badMu.Lock()
+						if firstBad == "" {
+							cn.mu.Lock()
+							firstBad = fmt.Sprintf("Get(%s) with a healthy context over a node that fails retryably %d time(s) and then succeeds returned (%q, %v) after %d underlying call(s), while other goroutines used the same wrapper with cancelled contexts", key, cn.fails[key], v, err, cn.tries[key])
+							cn.mu.Unlock()
+						}
+						badMu.Unlock()
+					}
+				}
+			}(g)
+		}
+		cwg.Wait()
+		if racelog.Enabled() {
+			n := 0
+			for _, rp := range racelog.Collect("/spec/chord") {
+				if !rp.InRepo {
+					continue
+				}
+				n++
+				r.Violation("race/spec/chord/retry", "concurrent", fmt.Sprintf("data race reported %d times with frames in spec/chord while one retrying wrapper was shared by concurrent callers: %s", rp.Count, rp.Key), map[string]any{"frames": rp.Frames, "report": rp.Excerpt})
+			}
+			r.Count("race_reports_in_spec_chord", int64(n))
+		}
+		r.Count("concurrent_calls_with_a_healthy_context", nHealthy.Load())
+		r.Count("concurrent_calls_with_a_cancelled_context", nCancelled.Load())
+		r.Case("concurrent/shared-wrapper/healthy-and-cancelled-contexts")
+		if nbad.Load() > 0 {
+			r.Violation("concurrent:healthy-call-not-first-success", "concurrent", fmt.Sprintf("%d of %d calls: %s", nbad.Load(), nHealthy.Load(), firstBad), nil)
+		}
+	}
 	r.Count("retries", retries)
 	r.Extra("bounds", map[string]any{"attempts": fmt.Sprintf("1..%d", maxAttempts), "methods": len(methods), "sequence_length": "attempts+1"})
 	r.Assume("attempts >= 1 (0 means 'retry for ever' in retry-go and is outside the property); the context is never cancelled")
